@@ -136,3 +136,11 @@ def param_default(fn, name):
         if p.arg == name:
             return dv
     return None
+
+
+def pn(fn, i):
+    """name of the i-th positional parameter of fn (0 = self for methods)"""
+    a = fn.args.posonlyargs + fn.args.args
+    if i >= len(a):
+        raise AnalysisError("%s has fewer than %d parameters" % (getattr(fn, "_qual", fn.name), i + 1))
+    return a[i].arg
